@@ -44,6 +44,12 @@ def configs(tier, seed):
            ('cgn/residual-one-step', dict(kind='cgn')),
            ('steepest/backtracking', dict(kind='steepest')),
            ('power-method', dict(kind='power')),
+           ('power-method/self-adjoint-branch', dict(kind='power-self')),
+           ('steepest/backtracking/max_num_iter=0', dict(kind='steepest', max_ls=0)),
+           ('steepest/backtracking/max_num_iter=1', dict(kind='steepest', max_ls=1)),
+           ('steepest/backtracking/max_num_iter=2', dict(kind='steepest', max_ls=2)),
+           ('stepsize/pdhg', dict(kind='stepsize-pdhg')),
+           ('stepsize/douglas_rachford_pd', dict(kind='stepsize-dr')),
            ('proxgrad/fejer', dict(kind='fejer', _settings={'merge_abs': False}))]
     if tier == 'thorough':
         out.append(('cg/exact-after-dim-steps', dict(kind='cg', _settings={'obligation_timeout_ms': 600000})))
@@ -70,7 +76,7 @@ def _sq(v):
     return v.inner(v)
 
 
-def case(ctx, kind, random=False, solver=None, prob=None, niter=1, m=1):
+def case(ctx, kind, random=False, solver=None, prob=None, niter=1, m=1, max_ls=None):
     X = odl.rn(2)
     A = odl.MatrixOperator(M22, domain=X, range=X)
     bump = 1 if ctx.canary else 0
@@ -129,7 +135,7 @@ def case(ctx, kind, random=False, solver=None, prob=None, niter=1, m=1):
         f = S.L2NormSquared(X).translated(b) * A
         x = ctx.element(X, 'x')
         f0 = f(x)
-        ls = S.BacktrackingLineSearch(f, tau=0.5, discount=0.25, max_num_iter=6)
+        ls = S.BacktrackingLineSearch(f, tau=0.5, discount=0.25, max_num_iter=6 if max_ls is None else max_ls)
         try:
             S.steepest_descent(f, x, line_search=ls, maxiter=1, tol=0.0)
         except ValueError as e:
@@ -153,6 +159,46 @@ def case(ctx, kind, random=False, solver=None, prob=None, niter=1, m=1):
             ctx.check('estimate<=true-norm', (t * 2 <= tr) | (t * t - tr * t + det <= 1e-9))
         else:
             ctx.fact('estimate<=true-norm', t * 2 <= tr or t * t - tr * t + det <= 1e-7)
+        return
+    if kind == 'power-self':
+        # operators with `op.adjoint is op` take the plain power iteration branch: the estimate of |s Id| is |s|
+        sc = ctx.real('s', 0.125, 4)
+        B = odl.ScalingOperator(X, sc)
+        x0 = ctx.element(X, 'x0')
+        ctx.assume(_sq(x0) != 0)
+        est = odl.power_method_opnorm(B, xstart=x0, maxiter=2)
+        ctx.le('estimate<=true-norm', est * est, sc * sc, slack=1e-9)
+        ctx.le('estimate>=0', 0, est)
+        Id = odl.IdentityOperator(X)
+        est1 = odl.power_method_opnorm(Id, xstart=x0, maxiter=2)
+        ctx.le('identity/estimate<=1', est1 * est1, 1, slack=1e-9)
+        return
+    if kind == 'stepsize-pdhg':
+        # the default step sizes are admissible: tau sigma |L|^2 < 1 (documented: = 0.9)
+        Ln = ctx.real('Lnorm', 0.125, 8)
+        given = ctx.real('given', 0.0625, 8)
+        t1, s1 = S.pdhg_stepsize(Ln)
+        ctx.eq('none-given/tau.sigma.L^2=0.9', t1 * s1 * Ln * Ln, 0.9, tol=(1e-9, 8))
+        t2, s2 = S.pdhg_stepsize(Ln, tau=given)
+        ctx.eq('tau-given/kept', t2, given)
+        ctx.eq('tau-given/tau.sigma.L^2=0.9', t2 * s2 * Ln * Ln, 0.9 + bump, tol=(1e-9, 8))
+        t3, s3 = S.pdhg_stepsize(Ln, sigma=given)
+        ctx.eq('sigma-given/kept', s3, given)
+        ctx.eq('sigma-given/tau.sigma.L^2=0.9', t3 * s3 * Ln * Ln, 0.9, tol=(1e-9, 8))
+        return
+    if kind == 'stepsize-dr':
+        # documented condition: tau sum_i sigma_i |L_i|^2 < 4 (the defaults give 2)
+        Ls = [ctx.real('L%d' % i, 0.125, 8) for i in range(2)]
+        tau_g = ctx.real('tau', 0.0625, 8)
+        sig_g = [ctx.real('sig%d' % i, 0.0625, 8) for i in range(2)]
+        for tag, kw in (('none-given', {}), ('tau-given', dict(tau=tau_g)), ('sigma-given', dict(sigma=sig_g))):
+            t, sg = S.douglas_rachford_pd_stepsize(Ls, **kw)
+            ctx.eq('%s/tau.sum(sigma_i.L_i^2)=2' % tag, t * sum(si * Li * Li for si, Li in zip(sg, Ls)), 2,
+                   tol=(1e-9, 8))
+            if 'tau' in kw:
+                ctx.eq('tau-given/kept', t, tau_g)
+            if 'sigma' in kw:
+                ctx.eq('sigma-given/kept', list(sg), sig_g)
         return
     if kind == 'fejer':
         # proximal gradient with gamma <= 1/L: distance to a solution does not increase
